@@ -28,7 +28,8 @@ Pool == << Field(B("Name"), <<>>, "string", NoT), Field(B("Name"), <<>>, "int", 
            Field(B("X"), <<>>, "float", NoT), Field(B("X"), <<>>, "bool", NoT),
            Field(B("P"), <<>>, "ptrint", NoT), Field(B("P"), <<>>, "sliceint", NoT), Field(B("P"), <<>>, "mapsi", NoT),
            Field(B("P"), <<>>, "arrint", NoT), Field(B("Inner"), <<>>, "ptrstruct", NoT), Field(B("Emb"), <<>>, "embedded", NoT),
-           Field(B("Port"), B("listen"), "int", NoT), Field(B("Listen"), <<>>, "int", NoT), Field(B("Port"), <<>>, "int", NoT) >>
+           Field(B("Port"), B("listen"), "int", NoT), Field(B("Listen"), <<>>, "int", NoT), Field(B("Port"), <<>>, "int", NoT),
+           Field(B("X"), <<>>, "defint", NoT), Field(B("X"), <<>>, "defstring", NoT), Field(B("Y"), <<>>, "deffloat", NoT), Field(B("Y"), <<>>, "defbool", NoT) >>
 Idx == 1..Len(Pool)
 Distinct(is) == \A i, j \in 1..Len(is) : i < j => (is[i] < is[j] /\ Pool[is[i]].go # Pool[is[j]].go)
 TOf(is, tn) == [tname |-> tn, fields |-> [i \in 1..Len(is) |-> Pool[is[i]]]]
